@@ -8,6 +8,7 @@ From ZV.C07 Require Import ModelFive ProofsFiveArith ProofsFive ProofsFiveProps 
 From ZV.C07 Require Import ModelTL ProofsTL ProofsTLProps.
 From ZV.C07 Require Import ModelTiered ProofsTiered ProofsTieredProps.
 From ZV.C07 Require Import ModelSecure ProofsSecure ProofsMemPool.
+From ZV.C07 Require Import ModelMmap ProofsMmap.
 Open Scope N_scope.
 
 (* any two live allocations occupy disjoint byte ranges - for every history and every arena size *)
@@ -538,3 +539,37 @@ Check mempool_inv :
     (forall c1 c2, In c1 (ms_live s) -> In c2 (mp_q (ms_p s)) -> snd c1 <> snd c2) /\
     nlen (mp_q (ms_p s)) <= max.
 Print Assumptions mempool_inv.
+
+(* ------------------------------------------------------------------------------------------- *)
+(* MemoryMappedAllocator (ModelMmap.v)                                                         *)
+(* ------------------------------------------------------------------------------------------- *)
+(* MemoryMappedAllocator: for every min_mmap_size, page size (a power of two) and history of allocate / deallocate, every live
+   region is at least as large as requested, live regions are pairwise distinct, and no cached region is live *)
+Theorem mmap_inv :
+  forall min pg ops, pow2b pg = true ->
+    let s := mm_final min pg ops in
+    (forall r size, In (r, size) (mms_live s) -> size <= fst r) /\
+    (forall i j e1 e2, i <> j -> nth_error (mms_live s) i = Some e1 -> nth_error (mms_live s) j = Some e2 ->
+       snd (fst e1) <> snd (fst e2)) /\
+    (forall e r, In e (mms_live s) -> In r (mm_cache (mms_p s)) -> snd (fst e) <> snd r).
+Proof. exact mmap_inv_proof. Qed.
+Check mmap_inv :
+  forall min pg ops, pow2b pg = true ->
+    let s := mm_final min pg ops in
+    (forall r size, In (r, size) (mms_live s) -> size <= fst r) /\
+    (forall i j e1 e2, i <> j -> nth_error (mms_live s) i = Some e1 -> nth_error (mms_live s) j = Some e2 ->
+       snd (fst e1) <> snd (fst e2)) /\
+    (forall e r, In e (mms_live s) -> In r (mm_cache (mms_p s)) -> snd (fst e) <> snd r).
+Print Assumptions mmap_inv.
+
+(* a cached region is handed out only for a request that rounds to the very size the region was mapped and cached with *)
+Theorem mmap_reissue_fits :
+  forall min pg st size r st', pow2b pg = true ->
+    mm_alloc min pg st size = (Some (r, true), st') ->
+    In r (mm_cache st) /\ mm_round pg size = Some (fst r) /\ size <= fst r.
+Proof. exact mmap_reissue_fits_proof. Qed.
+Check mmap_reissue_fits :
+  forall min pg st size r st', pow2b pg = true ->
+    mm_alloc min pg st size = (Some (r, true), st') ->
+    In r (mm_cache st) /\ mm_round pg size = Some (fst r) /\ size <= fst r.
+Print Assumptions mmap_reissue_fits.
